@@ -1,7 +1,7 @@
 (* C08 — BDD-encoded automata: load/dump, union, intersection, trimming, conversion keep exact languages; no call
    changes the language of an operand. Value-level pool model. Statements only. *)
 From Coq Require Import List NArith Bool.
-From V Require Import Sem Prod Incl TrimDefs TrimProofs Lang ProductDefs ProductProofs PoolDefs PoolProofs.
+From V Require Import Sem Prod Incl TrimDefs TrimProofs Lang ProductDefs ProductProofs PoolDefs PoolProofs ArityPrefix.
 
 (* frame property: an operation of the pool changes no handle but its target (operands keep their languages) *)
 Theorem C08_frame : forall p o h, h <> target o -> plookup (pool_step p o) h = plookup p h.
@@ -30,7 +30,17 @@ Proof. exact product_congr. Qed.
 Theorem C08_no_useless : forall L, no_useless L = true <-> useless_postcond L.
 Proof. exact no_useless_spec. Qed.
 
+(* arity prefix of the top-down encoding (addArityToSymbol): inside the guards (16-bit symbols, arity <= 63) the key of a
+   transition determines symbol and arity; outside them different arities collide (6 bits are stored) *)
+Theorem C08_arity_prefix_injective : forall s1 a1 s2 a2, in_guard s1 a1 = true -> in_guard s2 a2 = true ->
+  td_key s1 a1 = td_key s2 a2 -> s1 = s2 /\ a1 = a2.
+Proof. exact td_key_injective. Qed.
+Theorem C08_arity_prefix_guard_needed : td_key 5 64 = td_key 5 0 /\ in_guard 5 64 = false.
+Proof. exact td_key_guard_needed. Qed.
+
 Print Assumptions C08_frame.
+Print Assumptions C08_arity_prefix_injective.
+Print Assumptions C08_arity_prefix_guard_needed.
 Print Assumptions C08_union_lang.
 Print Assumptions C08_isect_lang.
 Print Assumptions C08_keep_lang.
